@@ -252,9 +252,11 @@ def join_aux(source_name, source_key, source_delete,  # noqa: C901
                 row.update(extra)
                 yield row
             if mode == 'full-outer':
+                target_fields = [f['name'] for f in resource.res.descriptor['schema']['fields']]
                 for key, value in db_keys_usage.items():
                     if value is False:
-                        extra = create_extra_by_key(key)
+                        extra = dict((name, None) for name in target_fields)
+                        extra.update(create_extra_by_key(key))
                         yield extra
 
     # Creates extra by key
